@@ -443,7 +443,7 @@ func main() {
 		}
 		res["n"], res["pairs"], res["triples"], res["lists"] = 2*len(pairs), n/2, 0, n/2
 	} else if *kind == "mixed" {
-		U := universe.Mixed(*tier, 3)
+		U := universe.MixedWithPreamble(*tier, 3)
 		// the comparator of Rules.Sort is not exported: read its sign off two-element sorts
 		cmp := func(i, j int) int8 {
 			if i == j {
